@@ -9,9 +9,9 @@ VERIF = os.path.dirname(os.path.dirname(os.path.abspath(__file__)))
 CLAIMED = {
     "C04": {
         "category": "fault_enumeration",
-        "text": "For every generated program (functions, methods, lambdas with 0..3 parameters; locals before/inside/after tries; assignments; captured variables; for/while loops; tries nested to depth 3 with one to three catch clauses and class filters; handlers containing fault points, closures over the catch variable and rendezvous with another fiber; a module-level handler that sometimes matches one class only (errors without any matching handler must end the program with a traceback and a failing status); exits by completion, break, continue, return through several tries; callbacks run by native iterators incl. the lazy for protocol; in a quarter of the programs the outermost function is the root of a launched fiber, whose stack is sized from that function alone) every dynamic fault point (up to 40; through a helper call or inline in the frame of the try) is enumerated with error kinds: raise of Error / user subclass, IndexError, RuntimeError, PropertyError from the interpreter, stack overflow by unbounded recursion, an operator applied to operands of the wrong type, an instance of a second unrelated class that carries the name of a filter class, and IoError (catch filters include a class that is only declared at the end of the file, whose evaluation raises itself); callbacks include List.sort comparators produced by a simulator-injected failure of the n-th file system read. An executable model of the IR gives the expected handler and the expected value of every variable in scope; GC schedule and address policy vary per program.",
+        "text": "For every generated program (functions, methods, lambdas with 0..3 parameters; locals before/inside/after tries; assignments; captured variables; for/while loops; tries nested to depth 3 with one to three catch clauses and class filters; handlers containing fault points, closures over the catch variable and rendezvous with another fiber; a module-level handler that sometimes matches one class only (errors without any matching handler must end the program with a traceback and a failing status); exits by completion, break, continue, return through several tries; callbacks run by native iterators incl. the lazy for protocol; in a quarter of the programs the outermost function is the root of a launched fiber, whose stack is sized from that function alone) every dynamic fault point (up to 40; through a helper call or inline in the frame of the try) is enumerated with error kinds: raise of Error / user subclass, IndexError, RuntimeError, PropertyError from the interpreter, stack overflow by unbounded recursion, an operator applied to operands of the wrong type, an instance of a second unrelated class that carries the name of a filter class, an Error subclass whose message is nil, and IoError (catch filters include a class that is only declared at the end of the file, whose evaluation raises itself); callbacks include List.sort comparators produced by a simulator-injected failure of the n-th file system read. An executable model of the IR gives the expected handler and the expected value of every variable in scope; GC schedule and address policy vary per program.",
         "design_ref": "DESIGN.md section 3 C04",
-        "note": "Quick tier enumerates all points x 2 seeded kinds per program, thorough all 9 kinds. A program whose fault-free reference run itself fails is counted as invalid_workload. The model shares no code with Laythe.",
+        "note": "Quick tier enumerates all points x 2 seeded kinds per program, thorough all 10 kinds. A program whose fault-free reference run itself fails is counted as invalid_workload. The model shares no code with Laythe.",
         "technique": "deterministic simulation with fault injection: enumerated dynamic fault points x error kinds (incl. injected fs faults), executable IR model as oracle",
     },
     "C10": {
